@@ -378,8 +378,18 @@ func (h *Host) handle(raw net.Conn) {
 		s.mu.Unlock()
 		return
 	}
+	if pre != nil && pre.Fault == "noread" {
+		if tc, ok := raw.(*net.TCPConn); ok {
+			tc.SetReadBuffer(2048)
+		}
+	}
 	tconn := tls.Server(conn, s.cfg)
 	if err := tconn.Handshake(); err != nil {
+		return
+	}
+	if pre != nil && pre.Fault == "noread" {
+		/* a peer that shakes hands and then never reads a byte: a long request cannot be written to it */
+		time.Sleep(pre.Delay)
 		return
 	}
 	raw.SetReadDeadline(time.Time{})
